@@ -335,3 +335,67 @@ package kapacitor
 //@   requires n != nil && n.expression != nil
 //@   modifies nothing
 //@   ensures result != nil && fresh(result) && result.n == n && result.expr != nil
+
+// ---------------------------------------------------------------- join.go (C12)
+
+//@ func (*joinset).Has
+//@   props C12
+//@   requires js != nil && 0 <= i && i < len(js.values)
+//@   pure
+//@   ensures result == (js.values[i] != nil)
+
+//@ func (*joinset).Ready
+//@   props C12
+//@   pure
+//@   ensures result == (js.size == js.expected)
+
+// A slot is filled once: size counts the filled slots, first is the least filled index.
+//@ func (*joinset).Set
+//@   props C12
+//@   requires js != nil && 0 <= i && i < len(js.values)
+//@   modifies js.first, js.size, elems(js.values)
+//@   ensures js.values[i] == v && js.size == old(js.size) + 1 && js.first == min(old(js.first), i)
+//@   ensures forall k int :: 0 <= k && k < len(js.values) && k != i ==> js.values[k] == old(js.values[k])
+
+//@ func (*joinGroup).newJoinset
+//@   trusted
+//@   modifies nothing
+//@   ensures result != nil && fresh(result) && len(result.values) == len(g.n.j.Names) && fresh(&result.values[0])
+//@   ensures forall k int :: 0 <= k && k < len(result.values) ==> result.values[k] == nil
+
+//@ func NewCircularQueue
+//@   trusted
+//@   modifies nothing
+//@   ensures result != nil && fresh(result) && qwf(result) && result.Len == len(buf) && fresh(&result.data[0])
+//@   ensures forall k int :: 0 <= k && k < len(buf) ==> qview(result, k) == buf[k]
+
+//@ func (*joinGroup).emit
+//@   trusted
+//@ func (*joinGroup).checkOnlyReadSets
+//@   props C12
+//@   requires g != nil
+//@   modifies nothing
+//@   ensures !result ==> forall i int :: 0 <= i && i < len(g.head) ==> g.head[i] > g.oldestTime
+//@   ensures (forall i int :: 0 <= i && i < len(g.head) ==> g.head[i] > g.oldestTime) ==> !result
+//@   loop 1
+//@     modifies nothing
+//@     invariant 0 <= _i && _i <= len(g.head) && !onlyReadySets
+//@     invariant forall i int :: 0 <= i && i < _i ==> g.head[i] > g.oldestTime
+
+//@ spec joinGroupOK(g *joinGroup) bool = g != nil && g.n != nil && g.n.j != nil && g.sets != nil && len(g.head) == len(g.n.j.Names)
+//@     && (forall t time.Time :: has(g.sets, t) ==> g.sets[t] != nil && qwf(g.sets[t])
+//@         && (forall k int :: 0 <= k && k < g.sets[t].Len ==> qview(g.sets[t], k) != nil && len(qview(g.sets[t], k).values) == len(g.head)))
+
+// Buffering is keyed by the tolerance-rounded time: the parent's head and the joinset both use
+// it (a head kept at the raw time makes later occurrences in the same bucket look late), and a
+// parent's message only ever goes into a joinset that has no value from that parent yet.
+//@ func (*joinGroup).Collect
+//@   props C12
+//@   requires joinGroupOK(g) && 0 <= src && src < len(g.head) && p != nil
+//@   guardcall Set#1: set != nil && len(set.values) == len(g.head) && set.values[src] == nil
+//@   guardcall checkOnlyReadSets#1: g.head[src] == p.Time().Round(g.n.j.Tolerance) && has(g.sets, p.Time().Round(g.n.j.Tolerance))
+//@   opt split=5
+//@   loop 1
+//@     modifies nothing
+//@     invariant 0 <= i && set == nil && sets == g.sets[t] && l == sets.Len
+
